@@ -253,7 +253,10 @@ class Mon(object):
                 self.stable[name] = False
             if self.spec.get("latency0") and api in ("JoinGroup", "SyncGroup", "Heartbeat", "FindCoordinator") \
                     and (ev["srv_error"] or ((not ev["ok"]) and ev["failure"] == "RequestTimedOutError")) \
-                    and self.timer.get(name) is None and name not in self.pending_backoff:
+                    and self.timer.get(name) is None and name not in self.pending_backoff \
+                    and not (api == "FindCoordinator" and name in self.last_sync_ok):
+                # (a coordinator lookup after the first sync may belong to a partition consumer's commit path, whose
+                # failure is followed by whatever back-off the consumer's error calls for)
                 self.pending_backoff[name] = ev
             elif api == "OffsetCommit" and (not ev["ok"] or ev["srv_error"] in (22, 25, 27)):
                 self.stable[name] = False
